@@ -330,8 +330,10 @@ def c_allowed(a):
 class Op:
     """one API call: `coq` = the model's call term, `thunk(env)` runs it on env (fresh objects)"""
 
-    def __init__(self, name, coq, fn, modelled=True, kidfree=False):
+    def __init__(self, name, coq, fn, modelled=True, kidfree=False, rand=False, kidsens=False):
         self.name, self.coq, self.fn, self.modelled, self.kidfree = name, coq, fn, modelled, kidfree
+        self.rand = rand          # the outcome depends on random.choice: compare with the set of isolated outcomes
+        self.kidsens = kidsens    # looks keys up by kid: on a set of kid-less keys the outcome legitimately follows the lazy kid
 
 
 def mk_ops(tokens):
@@ -365,13 +367,13 @@ def mk_ops(tokens):
         def fn(env):
             key = env.sets[s].get_by_kid(kidv)
             return [i for i, x in enumerate(env.keys) if x is key][0]
-        return Op("get_by_kid(%d,%r)" % (s, kidv), "CGetByKid %d %s" % (s, c_ostr(kidv)), fn)
+        return Op("get_by_kid(%d,%r)" % (s, kidv), "CGetByKid %d %s" % (s, c_ostr(kidv)), fn, kidsens=True)
 
     def pick(s, alg):
         def fn(env):
             key = env.sets[s].pick_random_key(alg)
             return None if key is None else [i for i, x in enumerate(env.keys) if x is key][0]
-        return Op("pick(%d,%s)" % (s, alg), "CPick %d %s" % (s, c_cstr(alg)), fn)
+        return Op("pick(%d,%s)" % (s, alg), "CPick %d %s" % (s, c_cstr(alg)), fn, rand=True)
 
     def kr(ref):
         return ("(KKey %d)" % ref[1]) if ref[0] == "k" else ("(KSet %d)" % ref[1])
@@ -387,7 +389,8 @@ def mk_ops(tokens):
             tok = jws.serialize_compact(hdr, payload, obj(env, ref), algorithms=allowed)
             env.tokens.append((tok, alg, payload, hdr.get("kid")))
             return hdr.get("kid")
-        return Op("sign(%s,%s,%r)" % (ref, alg, kidv), "CJws true %s %s %s %s" % (kr(ref), c_ostr(kidv), c_cstr(alg), c_allowed(allowed)), fn)
+        return Op("sign(%s,%s,%r)" % (ref, alg, kidv), "CJws true %s %s %s %s" % (kr(ref), c_ostr(kidv), c_cstr(alg), c_allowed(allowed)), fn,
+                  rand=(ref[0] == "s" and not kidv), kidsens=(ref[0] == "s" and bool(kidv)))
 
     def verify(ref, tokname, allowed=None):
         tok, alg, payload, kidv = tokens[tokname]
@@ -397,7 +400,8 @@ def mk_ops(tokens):
             if o.payload != payload:
                 raise RuntimeError("verified payload differs")
             return o.headers().get("kid")
-        return Op("verify(%s,%s)" % (ref, tokname), "CJws false %s %s %s %s" % (kr(ref), c_ostr(kidv), c_cstr(alg), c_allowed(allowed)), fn)
+        return Op("verify(%s,%s)" % (ref, tokname), "CJws false %s %s %s %s" % (kr(ref), c_ostr(kidv), c_cstr(alg), c_allowed(allowed)), fn,
+                  kidsens=(ref[0] == "s"))
 
     def raw(name, fn):
         return Op(name, None, fn, modelled=False)
@@ -424,11 +428,11 @@ class Env:
 class Shim:
     """stands in for the `random` module inside joserfc._keys: records every choice"""
 
-    def __init__(self, real):
-        self.real, self.picks = real, []
+    def __init__(self, real, forced=None):
+        self.real, self.picks, self.forced = real, [], forced
 
     def choice(self, seq):
-        x = self.real.choice(seq)
+        x = self.real.choice(seq) if self.forced is None else seq[self.forced % len(seq)]
         self.picks.append([i for i, y in enumerate(seq) if y is x][0])
         return x
 
@@ -643,16 +647,46 @@ class Runner:
             self.kimms[name] = kimm_of(self.specs[name][0])
         return self.kimms[name]
 
+    def wid(self, wname):
+        return wname.replace("-", "_")
+
+    def preamble(self):
+        out = []
+        for wname, world in self.worlds.items():
+            wid = self.wid(wname)
+            out.append("Definition im_%s : imm := %s." % (wid, c_list([c_kimm(self.kimm(n)) for n in world["keynames"]])))
+            out.append("Definition pre_%s : list bool := %s." % (wid, c_list([c_bool(p) for (_, p) in world["keys"]])))
+            out.append("Definition sets_%s : list (list nat) := %s." % (wid, c_list([c_list(["%d%%nat" % i for i in m]) for m, _ in world["sets"]])))
+        return "\n".join(out)
+
     def tps(self, world):
         return {self.kimm(n)["tp"] for n in world["keynames"]}
 
     def isolated(self, wname, op):
-        """the call on fresh objects, alone"""
-        env = Env(self.worlds[wname])
-        try:
-            return norm(("ok", op.fn(env))), env
-        except BaseException as e:   # noqa
-            return norm(("err", e)), env
+        """the call on fresh objects, alone; for a call that draws from random.choice: one outcome per possible pick"""
+        outs = []
+        for forced in (range(4) if op.rand else [None]):
+            env = Env(self.worlds[wname])
+            real = self._keys.random
+            self._keys.random = Shim(real.real if isinstance(real, Shim) else real, forced)
+            try:
+                r = norm(("ok", op.fn(env)))
+            except BaseException as e:   # noqa
+                r = norm(("err", e))
+            finally:
+                self._keys.random = real
+            if r not in outs:
+                outs.append(r)
+        return outs, env
+
+    def same(self, wname, op, a, outs):
+        tps = self.tps(self.worlds[wname])
+        if op.kidsens and any(lazy for _, lazy in self.worlds[wname]["sets"]):
+            return True
+        for b in outs:
+            if a == b or (a[0] == b[0] == "ok" and op.kidfree and strip_kid(a[1], tps) == strip_kid(b[1], tps)):
+                return True
+        return False
 
     def run_schedule(self, wname, ops, policy):
         world = self.worlds[wname]
@@ -669,13 +703,11 @@ class Runner:
     # ---- the direct oracle: every thread's outcome equals its isolated outcome ----
     def judge(self, wname, ops, env, res, trace, iso, kind):
         ctx = self.ctx
-        tps = self.tps(self.worlds[wname])
         replay = {"kind": "schedule", "world": wname, "ops": [op.name for op in ops], "schedule": [t for t, _ in trace],
                   "pair_kind": kind}
         for i, op in enumerate(ops):
-            a, b = res[i], iso[i]
-            same = (a == b) or (a[0] == b[0] == "ok" and op.kidfree and strip_kid(a[1], tps) == strip_kid(b[1], tps))
-            if not same:
+            a, b = res[i], iso[i][0]
+            if not self.same(wname, op, a, iso[i]):
                 where = next((lab for t, lab in reversed(trace) if t == i), "?")
                 ctx.violation({"kind": "outcome-differs-under-interleaving", "isolated": b[1] if b[0] == "err" else "ok",
                                "interleaved": a[1] if a[0] == "err" else "ok", "op": op.name.split("(")[0]},
@@ -743,14 +775,12 @@ class Runner:
     # ---- the model case of one executed schedule ----
     def emit(self, variant, wname, ops, env, res, trace, picks):
         world = self.worlds[wname]
-        im = c_list([c_kimm(self.kimm(n)) for n in world["keynames"]])
-        pre = c_list([c_bool(p) for (_, p) in world["keys"]])
-        sets = c_list([c_list(["%d%%nat" % i for i in m]) for m, _ in world["sets"]])
+        wid = self.wid(wname)
         setup = c_list(["CNewSet %s" % c_list(["%d%%nat" % i for i in m]) for m, lazy in world["sets"] if not lazy])
-        term = "CSched %s %s %s %s %s %s %s %s %s %s %s %s" % (
-            c_bool(variant == "fixed"), im, pre, sets, c_list(["%d%%nat" % p for p in picks]), setup,
-            c_list([op.coq for op in ops]), c_list(["%d%%nat" % t for t, _ in trace]),
-            c_list([c_cstr(lab) if '"' not in lab else '"?"%string' for _, lab in trace]),
+        term = "CSched %s im_%s pre_%s sets_%s %s %s %s %s %s %s %s %s" % (
+            c_bool(variant == "fixed"), wid, wid, wid, c_list(["%d%%nat" % p for p in picks]), setup,
+            c_list([op.coq for op in ops]), c_cstr("".join(str(t) for t, _ in trace)),
+            c_cstr(" ".join((lab if '"' not in lab and " " not in lab else "?") for _, lab in trace)),
             c_list([c_result(r) for r in res]),
             c_list(["(%s, %s, %s)" % tuple(c_bool(x) for x in key_final(k)) for k in env.keys]), c_N(len(picks)))
         self.cases.append(term)
@@ -774,9 +804,14 @@ class Runner:
                 return
             seen.add(key)
             ctx.note_case((wname, tuple(op.name for op in ops), key))
+            nv = len(ctx.violations) + len(ctx.known_hits)
             self.judge(wname, ops, env, res, trace, iso, kind)
-            if modelled:
+            interesting = (len(ctx.violations) + len(ctx.known_hits) != nv) or any(r not in i for r, i in zip(res, iso))
+            if modelled and (interesting and emitted[1] < 25 or len(seen) % stride == 0):
+                emitted[1] += 1 if interesting else 0
                 self.emit(variant, wname, ops, env, res, trace, picks)
+        emitted = [0, 0]
+        stride = 1 if not ctx.quick else 6
         go([])
         n = len(ops)
         if n == 2:
@@ -913,23 +948,18 @@ def sequential_histories(runner, ctx, variant):
                                   "the call %s changed shared state %r (history %r in world %s)" % (op.name, d, [o.name for o in ops[:idx + 1]], wname),
                                   {"kind": "history", "world": wname, "ops": [o.name for o in ops[:idx + 1]]})
                 iso, _ = runner.isolated(wname, op)
-                same = (r == iso) or (r[0] == iso[0] == "ok" and op.kidfree and strip_kid(r[1], tps) == strip_kid(iso[1], tps))
-                if op.name.startswith("pick(") or (op.name.startswith("sign(('s'") and "None" in op.name.split(",")[-1]):
-                    same = same or (r[0] == iso[0])      # a random pick: only the verdict class is comparable
-                if not same:
+                if not runner.same(wname, op, r, iso):
                     ctx.violation({"kind": "outcome-differs-after-history", "op": op.name.split("(")[0]},
                                   "call %s gives %r after the history %r but %r on fresh objects (world %s)" % (
-                                      op.name, r, [o.name for o in ops[:idx]], iso, wname),
+                                      op.name, r, [o.name for o in ops[:idx]], iso[0], wname),
                                   {"kind": "history", "world": wname, "ops": [o.name for o in ops[:idx + 1]]})
         finally:
             runner._keys.random = shim.real
-        im = c_list([c_kimm(runner.kimm(n)) for n in world["keynames"]])
-        pre = c_list([c_bool(p) for (_, p) in world["keys"]])
-        sets = c_list([c_list(["%d%%nat" % i for i in m]) for m, _ in world["sets"]])
+        wid = runner.wid(wname)
         setup = ["CNewSet %s" % c_list(["%d%%nat" % i for i in m]) for m, lazy in world["sets"] if not lazy]
         setup_res = ["(Ok %s)" % c_pv([env.keys[i]._dict_value.get("kid") for i in m]) for m, lazy in world["sets"] if not lazy]
-        runner.cases.append("CSeq %s %s %s %s %s %s %s %s %s" % (
-            c_bool(variant == "fixed"), im, pre, sets, c_list(["%d%%nat" % p for p in shim.picks]),
+        runner.cases.append("CSeq %s im_%s pre_%s sets_%s %s %s %s %s %s" % (
+            c_bool(variant == "fixed"), wid, wid, wid, c_list(["%d%%nat" % p for p in shim.picks]),
             c_list(setup + [op.coq for op in ops]), c_list(setup_res + [c_result(r) for r in results]),
             c_list(["(%s, %s, %s)" % tuple(c_bool(x) for x in key_final(k)) for k in env.keys]), c_N(len(shim.picks))))
         runner.meta.append({"world": wname, "ops": [op.name for op in ops], "history": True})
@@ -1027,7 +1057,8 @@ def run(ctx):
     ctx.coverage["input_distribution"] = {"schedules_executed": runner.nsched, "schedules_distinct_per_pair": per_pair,
                                           "history_calls": dist, "scheduler_wall_s": round(t_sched, 1), "variant": variant}
 
-    ev = lib.CoqEval(["From Model Require Import Base PyVal TableTypes C20Model C20Cases."], "c20case", "c20_check", "c20_show", shard=150, max_chars=400000)
+    ev = lib.CoqEval(["From Model Require Import Base PyVal TableTypes C20Model C20Cases."], "c20case", "c20_check", "c20_show",
+                     shard=60, max_chars=200000, preamble=runner.preamble())
     rs = ev.run(runner.cases)
     ctx.coverage["traces_validated_against_impl"] = rs["evaluated"]
     ctx.coverage["disagreements_checked"] = len(rs["failing"])
